@@ -294,8 +294,12 @@ func main() {
 				os.Exit(3)
 			}
 			// a trace line carries the oracle token, which is recomputed from the observed result
-			if _, has := fitsOracle(o, ""); has && len(o.A) == 3 {
-				o.A = o.A[:2]
+			if _, has := fitsOracle(o, ""); has {
+				// fixed-arity operations only; a MuxInsertSignal line must come without token
+				want := map[string]int{"EnumAddValue": 2, "EvalUpdateIndex": 2, "StdSetType": 2, "EnumSetEnum": 2, "MsgAppendSignal": 2, "MsgInsertSignal": 3}
+				if n, ok := want[o.Name]; ok && len(o.A) == n+1 {
+					o.A = o.A[:n]
+				}
 			}
 			if o.Name == "Assign" && len(o.A) > 3 {
 				o.A = o.A[:3]
